@@ -1,7 +1,7 @@
 (* Props/C03.v — C03: query results are well-formed, window-clipped, chronologically ordered
    streams; stored timelines return their events in (start, end) order.  Statements only. *)
 From CG Require Import Proofs.Defs Proofs.Compl Proofs.Merge Proofs.Diff Proofs.InterDisjoint
-     Proofs.Clip Proofs.Stored Proofs.RefSpec Proofs.Assembly.
+     Proofs.Clip Proofs.Stored Proofs.RefSpec Proofs.Assembly Proofs.Reverse2.
 
 (* SortedList insertion keeps (start, end) order for every insertion history *)
 Theorem C03_stored_start_end_order : forall evs, sorted_key (sl_build evs) = true.
@@ -65,6 +65,13 @@ Theorem C03_forward_wf : forall env e a b,
   stream_wf (fst (norm_bounds a b)) (snd (norm_bounds a b)) false (slice env e a b false) = true.
 Proof. exact Assembly.C03_forward_wf. Qed.
 Print Assumptions C03_forward_wf.
+
+(* reverse slices of [good'] trees (see Props/C04.v): non-empty, inside the window, sentinel-free,
+   non-increasing starts *)
+Theorem C03_reverse_wf : forall env e a b, good' env e -> wf_win' a b ->
+  stream_wf (fst (norm_bounds a b)) (snd (norm_bounds a b)) true (slice env e a b true) = true.
+Proof. exact Reverse2.C03_reverse_wf. Qed.
+Print Assumptions C03_reverse_wf.
 
 (* KF-D1 also breaks order: fragments of overlapping source events come out of start order *)
 Theorem C03_difference_order_refuted :
